@@ -233,6 +233,12 @@ func lexMessageHeader(l *lexer) stateFn {
 			l.emit(tokenTypeLeftAngleBracket)
 			return lexMessageText
 		default:
+			if unicode.IsSpace(r) {
+				// any other Unicode whitespace separates header elements, too;
+				// a message name ends at (and so cannot contain) any of them
+				l.ignore()
+				continue
+			}
 			for {
 				r := l.next()
 				if r == eof || unicode.IsSpace(r) || strings.HasPrefix(l.input[l.pos-1:], "//") {
